@@ -37,6 +37,7 @@ class G:
         if isinstance(e, ast.Constant):
             if e.value is None: return "none"
             if isinstance(e.value, int) and not isinstance(e.value, bool): return f"(some ({e.value}))"
+            if isinstance(e.value, float) and e.value == int(e.value): return f"(some ({int(e.value)}))"          # 0.0, 1.0: the number
         if isinstance(e, ast.UnaryOp) and isinstance(e.op, ast.USub) and isinstance(e.operand, ast.Constant) and isinstance(e.operand.value, int):
             return f"(some (-{e.operand.value}))"
         if isinstance(e, ast.BoolOp):
@@ -412,6 +413,19 @@ SITES["C03"] += [
     dict(file="stats.py", cls=None, fn="argtopn", mode="branch", select="n == 0", lean="argtopnZeroBranch", atoms={"n": ("n", I)}),
     dict(file="stats.py", cls=None, fn="argtopn", mode="branch", select="np.any(invalid)", lean="argtopnInvalidBranch", atoms={"np.any(invalid)": ("anyMissing", B)}),
     dict(file="stats.py", cls=None, fn="argtopn", mode="branch", select="n < N", lean="argtopnPartialBranch", atoms={"n": ("n", I), "N": ("N", I)}),
+]
+
+# time bounds of `filter_interactions` (C05): a bound is applied exactly when it is given — 0 is a bound
+_FI = dict(file="data/builder.py", cls="DatasetBuilder", fn="filter_interactions")
+SITES["C05"] += [
+    dict(_FI, mode="branch", select="min_time is not None or max_time is not None", lean="timeFilterRequested", atoms={"min_time": ("minTime", O), "max_time": ("maxTime", O)}),
+    dict(_FI, mode="branch", select="min_time is not None", exact=True, lean="minTimeApplied", atoms={"min_time": ("minTime", O)}),
+    dict(_FI, mode="branch", select="max_time is not None", exact=True, lean="maxTimeApplied", atoms={"max_time": ("maxTime", O)}),
+]
+# the default a metric is registered with (C07): one that is given — 0 included — is kept; otherwise the metric's own, or 0 for plain functions
+SITES["C07"] += [
+    dict(file="metrics/bulk.py", cls=None, fn="_wrap_metric", mode="var", var="default", lean="wrapDefault",
+         atoms={"default": ("given", O), "isinstance(m, ListMetric)": ("isListMetric", B), "m.default": ("own", O)}),
 ]
 
 # the runner's decisions (C02): what a request of a finished / running node yields, when an input or a dependency is reported missing or
